@@ -1212,3 +1212,57 @@ def mon_c13(case_line, acts):
             out.append(V('disconnect() dropped after the transport accepted %s; the handle is still live'
                          % ''.join(e[3] for e in a.events if e[0] == 'w' and e[2]), 'K13d'))
     return out
+
+
+# ---------------------------------------------------------------- C16: progress and quiescence under a benign continuation
+def mon_c16(case_line, acts):
+    """after the Heal action (transport healthy from here on, broker answering everything) the continuation
+    [reconnect], poll x N must complete every pending operation, send every owed acknowledgement and reach a
+    publish-quiescent session; a poll that returns without a message has made wire progress; nothing spins."""
+    out = []
+    heal = next((i for i, a in enumerate(acts) if a.code == 14), None)
+    if heal is None:
+        return out
+    tail = acts[heal + 1:]
+    for a in acts:
+        if (a.result or '') in ('FUEL',):
+            out.append(V('an operation performed more than 50000 I/O calls (or exhausted the model\'s fuel): it loops without bound'))
+            return out
+    connected = any(a.code == 0 for a in tail)
+    for i, a in enumerate(tail):
+        res = a.result or ''
+        if a.code == 0 and not res.startswith('ok'):
+            prev = acts[heal + i].state or {}
+            if res.startswith('err BufferTooSmall') and list_field(prev.get('ret', '[]')):
+                out.append(V('the session cannot be reconnected: CONNECT does not fit behind the retained packets %s'
+                             % prev.get('ret'), 'K12'))
+            elif res.startswith('err BufferTooSmall'):
+                pass            # arena too small for any CONNECT: configuration, not history
+            else:
+                out.append(V('reconnect over the healed transport failed: %s' % res))
+            return out
+        if a.code == 6 and res == 'ok none':
+            if not any((e[0] in 'wr' and e[2]) or (e[0] == 'f' and e[1] == 'ok') for e in a.events):
+                out.append(V('poll() returned without a message and without any wire progress'))
+                return out
+    last = tail[-1].state if tail and tail[-1].state else {}
+    if last.get('live') != '1':
+        # the handle died during the benign continuation (or was never re-established in this style of tail)
+        dead = next((a for a in tail if a.code in (5, 6, 7) and (a.result or '').startswith('err')), None)
+        if connected and dead is not None:
+            out.append(V('during the benign continuation poll() failed with "%s"' % dead.result,
+                         'K16ka' if 'Disconnected' in dead.result and any(e[0] == 't' for e in dead.events) else None))
+        return out
+    problems = []
+    if last.get('ctl', '[]') != '[]':
+        problems.append('owed acknowledgements still queued: %s' % last.get('ctl'))
+    if last.get('rel', '[]') != '[]':
+        problems.append('PUBRELs still pending: %s' % last.get('rel'))
+    if last.get('pq') != '1':
+        problems.append('session not publish-quiescent (retained %s)' % last.get('ret'))
+    pend = [x for x in list_field(last.get('h', '[]')) if x.startswith('P')]
+    if pend:
+        problems.append('%d operation handle(s) still pending' % len(pend))
+    if problems:
+        out.append(V('after %d polls against a responsive broker: %s' % (sum(1 for a in tail if a.code == 6), '; '.join(problems))))
+    return out
